@@ -19,16 +19,32 @@ Extraction Language OCaml.
 Extraction "c14model.ml" mkTree out_reactions mkRb.
 '''
 
+LONE_KEY = 'loneparticle-com-offset-reaction-torque'
+def route_lone(sysm, key):
+    """RBNodeLoneParticle (forward Translation on Ground, identity frames, no children) drops the m p x a moment: in a system that contains
+    such a body, disagreements of the articulated-body route at that body and at Ground (which accumulates it) belong to the known finding"""
+    if sysm['lone'] and key[0] in ('FM', 'ATM', 'ATO', 'PATO', 'PATF') and (key[1] in sysm['lone'] or key[1] == 0): return LONE_KEY
+    return None
+
+def witness(ctx, d):
+    rc, out, err = sh([os.path.join(d, 'probe'), 'witness'], timeout=300)
+    w = [l for l in out.split('\n') if l.startswith('WITNESS ' + LONE_KEY)]
+    ctx.extra['witness_loneparticle'] = [l for l in out.split('\n') if l.startswith('WITNESS')] or 'witness did not run: rc=%d %s' % (rc, err[-200:])
+    if w and ' bad=1 ' in w[0]:
+        ctx.report(LONE_KEY, 'calcMobilizerReactionForces / findMobilizerReaction*: lone Translation body on Ground with identity frames (RBNodeLoneParticle) and '
+                   'mass centre (0.3,-0.2,0.5): reported reaction torque differs from the free-body (Newton-Euler) value: ' + w[0],
+                   {'replay_cmd': '%s witness' % os.path.join(d, 'probe'), 'failing_input': w[0]})
+
 def run(ctx):
     ctx.build_repo()
     ctx.coq_props(PROPS)
     d = C15.build(ctx, 'C14', 'C14/C14_Model.vo', EXTRACT, 'c14model', 'C14_drv.ml', 'C14_probe.cpp')
     if d:
-        nsys, maxb = (600, 10) if ctx.tier == 'quick' else (8000, 14)
+        nsys, maxb = (1000, 10) if ctx.tier == 'quick' else (8000, 14)
         # tolerance: the implementation's main route goes through the articulated-body quantities (P+, z+) of the forward-dynamics
         # solution; it agrees with the free-body recursion to rounding amplified by the conditioning of the hinge inertias
         # (massless bodies, long chains), measured worst case 2e-12 on 600 systems; 1e-8 of the largest reaction component is used
-        n, dis, stats = C15.compare(ctx, 'C14', d, 'corr', nsys, maxb, INDEXED, 1e-8, 1e-10)
+        n, dis, stats = C15.compare(ctx, 'C14', d, 'corr', nsys, maxb, INDEXED, 1e-8, 1e-10, route=route_lone)
         ctx.extra['correspondence'] = stats
         if dis:
             x = dis[0]
@@ -38,7 +54,8 @@ def run(ctx):
     ctx.cov['rule'] = ('random simbody trees realized to Acceleration (1..N bodies; chain/star/random branching; 17 mobilizer types x forward/reversed, Weld '
                        'over-represented; quaternion or Euler; gravity, random body forces on any body incl. Ground, random mobility forces; 1/3 with a Rod or '
                        'Ball constraint (flag bit 0), 1/4 with a Sinusoid-prescribed mobilizer (bit 1), 1/5 with a locked mobilizer (bit 2); 1/4 with massless '
-                       'non-terminal bodies); per body incl. Ground the model is compared (rel tol 1e-8 of the largest component) with '
+                       'non-terminal bodies, systems with a singular mass matrix skipped; 1/6 with an extra RBNodeLoneParticle body = forward Translation on Ground with '
+                       'identity frames, no children, off-origin mass centre); per body incl. Ground the model is compared (rel tol 1e-8 of the largest component) with '
                        'calcMobilizerReactionForces, calcMobilizerReactionForcesUsingFreebodyMethod, findMobilizerReactionOnBodyAtMInGround / AtOriginInGround, '
                        'findMobilizerReactionOnParentAtOriginInGround / AtFInGround and getGyroscopicForce; systems whose accelerations or multipliers are '
                        'non-finite or above 1e5 (singular) are skipped and counted; non-trivial = at least 3 bodies incl. Ground, distinct by '
@@ -49,5 +66,11 @@ def run(ctx):
                         'per-body inputs (A_GB, V_GB, mass properties, applied body forces, constraint body forces from the multipliers, frame offsets) are the values '
                         'the implementation reports; that A_GB solves the equations of motion is C02/C08, not C14']
     # the property's own predicate on the implementation alone is cheap: run it always (it is the only tie of the P+ A+ + z+ route besides the correspondence)
-    C15.search(ctx, 'C14', d, 400 if ctx.tier == 'quick' else 6000, 12)
+    if d:
+        witness(ctx, d)
+        for key, entries in getattr(ctx, 'routed', {}).items():
+            x = entries[0]
+            ctx.report(key, 'model and implementation differ at a RBNodeLoneParticle body / Ground: system %d (seed %d) tag %s[%d]: impl=%s model=%s (%d such disagreements)' %
+                       (x['system'], x['seed'], x['tag'], x['index'], x['impl'], x['model'], len(entries)), {'first_disagreement': x})
+    C15.search(ctx, 'C14', d, 400 if ctx.tier == 'quick' else 6000, 12, keymap={LONE_KEY: LONE_KEY})
     ctx.finish()
